@@ -55,6 +55,11 @@ def shape_list(rng, tier):
     return out
 
 
+def vn(i, raw):
+    """variant names; raw identifiers for the first two variants of a `raw` case"""
+    return ['r#Type', 'r#loop'][i] if (raw and i < 2) else 'V%d' % i
+
+
 def fields_s(kind, fts, raw):
     names = ['a', 'r#type' if raw else 'b', 'c', 'd']
     fs = []
@@ -87,12 +92,12 @@ class C10(Prop):
     def cases(self, tier, rng):
         out = []
         for k, (is_enum, vs) in enumerate(shape_list(rng, tier)):
-            raw = (k % 7 == 3)
+            raw = (k % 5 == 3)
             mode = 'attr' if k % 2 else 'derive'
             uses_t = any(FT[fi][1] == 'T' for _, fts in vs for fi, _ in fts)
             gen = sx.generics([sx.gp_ty('T')]) if uses_t else None
             if is_enum:
-                it = sx.enum('E', [sx.variant('V%d' % i, fields_s(kind, fts, raw)) for i, (kind, fts) in enumerate(vs)], gen=gen)
+                it = sx.enum('E', [sx.variant(vn(i, raw), fields_s(kind, fts, raw)) for i, (kind, fts) in enumerate(vs)], gen=gen)
                 kw = '(enum ('
             else:
                 it = sx.struct('X', fields_s(vs[0][0], vs[0][1], raw), gen=gen)
@@ -131,7 +136,7 @@ class C10(Prop):
                 twin.append((vi, kind, decl))
             if m['enum']:
                 src.append('pub mod twin { use super::*; #[derive(Debug)] pub enum E%s { %s %s } }' % (
-                    g, ', '.join('V%d %s' % (vi, decl) for vi, kind, decl in twin),
+                    g, ', '.join('%s %s' % (vn(vi, m['raw']), decl) for vi, kind, decl in twin),
                     (', _P(::core::marker::PhantomData<T>)' if m['generic'] else '')))
             else:
                 vi, kind, decl = twin[0]
@@ -145,7 +150,7 @@ class C10(Prop):
                         g, decl, ';' if kind != 'named' else ''))
             src.append('pub fn run() {')
             for vi, (kind, fts) in enumerate(m['vs']):
-                path = ('E::V%d' % vi) if m['enum'] else 'X'
+                path = ('E::%s' % vn(vi, m['raw'])) if m['enum'] else 'X'
                 _, real = rust_fields(kind, fts, m['raw'], lambda f: True)
                 _, tw = rust_fields(kind, fts, m['raw'], lambda f: f != 'I')
                 tf = [FT[fi][2] for fi, f in fts if f in ('T', 'B')]
@@ -155,11 +160,11 @@ class C10(Prop):
                     else:
                         tpath = 'twin::' + path
                         if m['enum'] and m['generic']:
-                            tpath = 'twin::E::<u16>::V%d' % vi
+                            tpath = 'twin::E::<u16>::%s' % vn(vi, m['raw'])
                         ref = 'format!("%s", %s %s)' % (spec, tpath, tw)
                     rpath = path
                     if m['generic'] and not any(FT[fi][1] == 'T' for fi, _ in fts):
-                        rpath = ('E::<u16>::V%d' % vi) if m['enum'] else 'X::<u16>'
+                        rpath = ('E::<u16>::%s' % vn(vi, m['raw'])) if m['enum'] else 'X::<u16>'
                     src.append('    println!("%d\\tv%ds%d\\t{}", format!("%s", %s %s) == %s);'
                                % (r.cid, vi, si, spec, rpath, real, ref))
             src.append('}')
